@@ -18,6 +18,8 @@ pub fn demo_path() -> PathBuf {
 
 pub struct Node {
     dir: PathBuf,
+    /// a call hit the wall-clock limit: its None is not a verdict
+    timed_out: std::cell::Cell<bool>,
 }
 
 fn hex(b: &[u8]) -> String {
@@ -31,7 +33,7 @@ impl Node {
         }
         let dir = std::env::temp_dir().join(format!("hss-sim-{}-{}", std::process::id(), SEQ.fetch_add(1, Ordering::SeqCst)));
         fs::create_dir_all(&dir).ok()?;
-        Some(Node { dir })
+        Some(Node { dir, timed_out: std::cell::Cell::new(false) })
     }
     /// Is the binary runnable here at all?
     pub fn available() -> bool {
@@ -60,6 +62,7 @@ impl Node {
                     if std::time::Instant::now() > deadline {
                         let _ = child.kill();
                         let _ = child.wait();
+                        self.timed_out.set(true);
                         return None;
                     }
                     std::thread::sleep(std::time::Duration::from_millis(2));
@@ -149,6 +152,10 @@ impl Node {
         self.put("m", b"probe");
         let out = self.run(&["sign", "k", "m"])?;
         Some(out.contains("signed (m.sig)"))
+    }
+    /// true once if a call since the last query ran into the time limit
+    pub fn take_timeout(&self) -> bool {
+        self.timed_out.replace(false)
     }
     pub fn dir(&self) -> &Path {
         &self.dir
